@@ -3,11 +3,13 @@ import Gpc.Driver.Search
 import Gpc.Driver.Utf8
 import Gpc.Driver.Utf
 import Gpc.Driver.Arena
+import Gpc.Driver.Scope
 open Gpc.Proto
 
 /-- state of the stateful models (one operation script at a time) -/
 structure St where
   arena : Gpc.Driver.ArenaSt := {}
+  scopes : List (Nat × Gpc.Driver.ScopeSt) := []
 
 def dispatch (st : St) (toks : List String) : St × String :=
   match toks with
@@ -16,6 +18,7 @@ def dispatch (st : St) (toks : List String) : St × String :=
   | "u8" :: rest => (st, Gpc.Driver.u8 rest)
   | "utf" :: rest => (st, Gpc.Driver.utf rest)
   | "ar" :: rest => let (a, o) := Gpc.Driver.arenaStep st.arena rest; ({ st with arena := a }, o)
+  | "sc" :: rest => let (a, o) := Gpc.Driver.scopeStep st.scopes rest; ({ st with scopes := a }, o)
   | _ => (st, "bad-op")
 
 partial def loop (h : IO.FS.Stream) (out : IO.FS.Stream) (st : St) : IO Unit := do
